@@ -64,6 +64,73 @@ def make_script(rng, name, kind=None, plan=None, nkeys=None, length=None):
             steps += 1
     return f"=== {name} plan={plan} nkeys={nkeys}\n" + "\n".join(lines) + "\n"
 
+def make_run_script(rng, name, kind=None):
+    """Collision runs for HashTable: n elements under ONE hash (or hashes sharing a probe start),
+    n from below a group to several groups (7/14/28/56 fill a table exactly), removals inside the
+    run (tombstones in groups without EMPTY), then find / find_mut / entry / iter_hash / get_many_mut /
+    remove+reinsert on elements stored beyond the tombstones, before and after an in-place rehash."""
+    kind = kind or rng.choice(["table-drop", "table-plain", "table-200"])
+    plan = rng.choice(["zero", "max", "lowpos", "twotags", "wrap", "sametag"])
+    n = rng.choice([9, 14, 14, 15, 16, 17, 18, 24, 28, 28, 31, 33, 40, 56, 57])
+    salt = rng.getrandbits(32)
+    lines = [f"kind {kind}"] + [f"hash {k} {plan_hash(plan, k, rng, salt)}" for k in range(n + 8)]
+    stamp = [0]
+    def st():
+        stamp[0] += 1
+        return stamp[0]
+    live = set()
+    for k in range(n):
+        lines.append(f"tinsertunique {k} {st()} {rng.randrange(100)}"); live.add(k)
+    for k in rng.sample(range(n), rng.choice([1, 1, 2, 3, max(1, n // 3), n // 2 + 1, max(1, n - 2), max(1, n - 5)])):
+        lines.append(f"tfindentryremove {k} id {k}"); live.discard(k)
+    def probes():
+        keys = list(range(n + 4))
+        rng.shuffle(keys)
+        for k in keys[: rng.choice([6, 12, n + 4])]:
+            c = rng.choice(["tfind", "tfind", "tfindmut", "tentryorinsert", "tentryinsert", "tentrydrop", "titerhash", "titerhash",
+                            "tremovereinsert", "tgetmanymut", "tinsertunique", "tfindentryremove", "titer", "tlen"])
+            v = rng.randrange(100)
+            if c in ("tfind",):
+                lines.append(f"tfind {k} id {k}")
+            elif c == "tfindmut":
+                lines.append(f"tfindmut {k} id {k} {v}")
+            elif c in ("tentryorinsert", "tentryinsert"):
+                lines.append(f"{c} {k} {st()} {v}"); live.add(k)
+            elif c == "tentrydrop":
+                lines.append(f"tentrydrop {k}")
+            elif c == "titerhash":
+                lines.append(f"titerhash {k}")
+            elif c == "tremovereinsert":
+                lines.append(f"tremovereinsert {k} id {k} {st()} {v}")
+            elif c == "tgetmanymut":
+                k2 = rng.choice(keys)
+                lines.append(f"tgetmanymut {rng.randrange(4)} 2 {k} id {k} {k2} id {k2}")
+            elif c == "tinsertunique":
+                if k not in live:
+                    lines.append(f"tinsertunique {k} {st()} {v}"); live.add(k)
+            elif c == "tfindentryremove":
+                lines.append(f"tfindentryremove {k} id {k}"); live.discard(k)
+            else:
+                lines.append(c)
+    probes()
+    if rng.random() < 0.6:
+        lv = list(live)
+        rng.shuffle(lv)
+        for k in lv[: max(0, len(lv) - rng.choice([1, 2, 4, 7]))]:
+            lines.append(f"tfindentryremove {k} id {k}"); live.discard(k)
+        for _ in range(rng.choice([4, 10, 30])):
+            absent = [k for k in range(n + 4) if k not in live]
+            if not absent:
+                break
+            k = rng.choice(absent)
+            lines.append(f"tentryorinsert {k} {st()} {rng.randrange(100)}"); live.add(k)
+            if rng.random() < 0.3 and live:
+                k = rng.choice(list(live))
+                lines.append(f"tfindentryremove {k} id {k}"); live.discard(k)
+        probes()
+    lines.append("titer")
+    return f"=== {name} plan={plan} nkeys={n + 6}\n" + "\n".join(lines) + "\n"
+
 if __name__ == "__main__":
     seed, count = int(sys.argv[1]), int(sys.argv[2])
     rng = random.Random(seed)
